@@ -241,7 +241,8 @@ def verus_unit(unit, scratch, prop):
     res['hard'] = hard
     res['verifier_output'] = [dict(message=d.get('message'), rendered=(d.get('rendered') or '')[:3000]) for d in r['diags'] if d.get('level') == 'error'][:20]
     # vacuity canary: every woven function must fail an `assert(false)` placed at its entry
-    if not failures and not hard:
+    # (also run when obligations failed: a recorded known finding must not switch the vacuity guard off)
+    if not hard:
         cout = os.path.join(scratch.dir, unit + '_canary.rs')
         try:
             cw = weave.weave(REPO, spec, cout, canary=True)
